@@ -729,8 +729,9 @@ def run(ck):
         for n in H.calls_in(fn['body']):
             if H.callee(n) == pred or H.callee_decl(n) == pred:
                 par = H.parents(fn).get(id(n))
-                negated = par is not None and par.get('k') == 'Unary' and par.get('op') == 'Not'
-                in_filter = any(a.get('k') == 'MCall' and a.get('m') == 'filter' for a in H.ancestors(fn, n))
+                sel = H.selects_by_negated(fn, n)
+                negated = (par is not None and par.get('k') == 'Unary' and par.get('op') == 'Not') or sel == 'continue'
+                in_filter = any(a.get('k') == 'MCall' and a.get('m') == 'filter' for a in H.ancestors(fn, n)) or sel == 'continue'
                 role = short(fn['path'])
                 roles.setdefault(role, []).append((negated, in_filter, n))
     for role, need in (('build', 2), ('UiSupportCode::build', 1)):
